@@ -66,6 +66,16 @@ pub fn layout(wasm: &[u8]) -> Vec<FuncLayout> {
     funcs
 }
 
+/// Offset of the code section's contents (the function count) in the module.
+pub fn code_section_start(wasm: &[u8]) -> Option<usize> {
+    for p in Parser::new(0).parse_all(wasm) {
+        if let Ok(Payload::CodeSectionStart { range, .. }) = p {
+            return Some(range.start);
+        }
+    }
+    None
+}
+
 pub fn num_imported_funcs(wasm: &[u8]) -> u32 {
     let mut n = 0;
     for p in Parser::new(0).parse_all(wasm) {
